@@ -20,7 +20,8 @@ import (
 )
 
 // TOp is one step of a trie history. Op: "put" (K,V hex; V=0 deletes), "hash" (Hash(): observe the
-// root, keep going on the same object), "commit" (Commit(), persist, drop the object, reopen).
+// root, keep going on the same object), "commit" (Commit(), persist, drop the object, reopen), "get" (Get(K)
+// on the WRITING object: trie2 resolves and keeps the nodes on the way).
 type TOp struct {
 	Op string `json:"op"`
 	K  string `json:"k,omitempty"`
@@ -56,9 +57,11 @@ func feltHex(f *felt.Felt) string { return f.BigInt(new(big.Int)).Text(16) }
 // observation points: root after each hash / commit marker and at the end
 type trace struct {
 	Sets  [][]string `json:"-"` // canonical node set of every Commit (trie2 only)
+	Disks [][]string `json:"-"` // canonical dump of the whole node database after every Commit (trie2 only)
 	Roots []string `json:"roots"`
 	Err   string   `json:"err,omitempty"`
 	Read  string   `json:"read,omitempty"` // first read-back (Get after reopen) that differs from the map
+	Gets  []string `json:"-"`              // answers of the "get" ops
 	Leak  string   `json:"leak,omitempty"` // first dropped update that left a trace in the database
 	DRoots []string `json:"-"`             // roots computed by the dropped updates ("" = none)
 	// state level: blocks whose Update was REJECTED when given the root stored for the previous block as
@@ -67,6 +70,10 @@ type trace struct {
 	OldRejErr string `json:"-"`
 	// chain level: blocks for which the stored StateUpdate.OldRoot is not the root stored in the previous header
 	OldStored []int `json:"-"`
+	// chain level: StateUpdate.OldRoot / NewRoot as stored for every block; number of blocks Store was tried on
+	StoredOld   []string `json:"-"`
+	StoredNew   []string `json:"-"`
+	StoreBlocks int      `json:"-"`
 }
 
 type getter interface {
@@ -104,6 +111,7 @@ type t2sess struct {
 	tr     *trie2.Trie
 	owner  felt.Address
 	lastSet []string
+	lastDisk []string
 }
 
 func openT2(c *TrieCase) (*t2sess, error) {
@@ -197,7 +205,101 @@ func (s *t2sess) commit() (felt.Felt, error) {
 			return root, err
 		}
 	}
+	s.lastDisk = s.canonDisk()
 	return root, s.reopen()
+}
+
+// canonDisk renders the whole key/value content of the trie's database the way the Lean driver prints
+// the model's (`bdump`): every key is parsed back into (path, leaf flag), every blob decoded.
+// Key layout (trieutils.nodeKeyByPath): [bucket][32 bytes owner, if any][node type][encoded path].
+func (s *t2sess) canonDisk() []string {
+	type ent struct {
+		l    int
+		p    *big.Int
+		leaf bool
+		s    string
+	}
+	var es []ent
+	skip := 1
+	if !felt.IsZero(&s.owner) {
+		skip += 32
+	}
+	for k, v := range dumpDB(s.disk) {
+		kb := []byte(k)
+		if len(kb) < skip+1 || kb[0] != byte(s.id.Bucket()) {
+			es = append(es, ent{-1, new(big.Int), false, fmt.Sprintf("X:foreign-key:%x", kb)})
+			continue
+		}
+		var path trieutils.Path
+		if err := path.UnmarshalBinary(kb[skip+1:]); err != nil {
+			es = append(es, ent{-1, new(big.Int), false, fmt.Sprintf("X:bad-path:%x", kb)})
+			continue
+		}
+		// the node-type byte is not exported: rebuild both keys with the real key function
+		isLeaf := false
+		switch k {
+		case s.keyOf(&path, true):
+			isLeaf = true
+		case s.keyOf(&path, false):
+		default:
+			es = append(es, ent{-1, new(big.Int), false, fmt.Sprintf("X:key-not-canonical:%x", kb)})
+			continue
+		}
+		pf := path.Felt()
+		pn := pf.BigInt(new(big.Int))
+		lf := "0"
+		if isLeaf {
+			lf = "1"
+		}
+		pre := fmt.Sprintf("%d:%s:%s:", path.Len(), pn.Text(16), lf)
+		var zero felt.Felt
+		dec, err := trienode.DecodeNode([]byte(v), &zero, path.Len(), s.height)
+		var str string
+		switch d := dec.(type) {
+		case *trienode.ValueNode:
+			x := felt.Felt(*d)
+			str = pre + "L:" + feltHex(&x)
+		case *trienode.BinaryNode:
+			l, r := d.Children[0].Hash(nil), d.Children[1].Hash(nil)
+			str = pre + "B:" + feltHex(&l) + ":" + feltHex(&r)
+		case *trienode.EdgeNode:
+			c := d.Child.Hash(nil)
+			ef := d.Path.Felt()
+			str = fmt.Sprintf("%sE:%s:%d:%s", pre, feltHex(&c), d.Path.Len(), ef.BigInt(new(big.Int)).Text(16))
+		default:
+			str = fmt.Sprintf("%sX:%v", pre, err)
+		}
+		es = append(es, ent{int(path.Len()), pn, isLeaf, str})
+	}
+	sort.Slice(es, func(i, j int) bool {
+		if es[i].l != es[j].l {
+			return es[i].l < es[j].l
+		}
+		if c := es[i].p.Cmp(es[j].p); c != 0 {
+			return c < 0
+		}
+		return !es[i].leaf && es[j].leaf
+	})
+	out := make([]string, len(es))
+	for i, e := range es {
+		out[i] = e.s
+	}
+	if len(out) == 0 {
+		return []string{"empty"}
+	}
+	return out
+}
+
+// keyOf: the database key the real code uses for a node (through WriteNodeByPath on a scratch store)
+func (s *t2sess) keyOf(path *trieutils.Path, isLeaf bool) string {
+	scratch := memory.New()
+	if err := trieutils.WriteNodeByPath(scratch, s.id.Bucket(), &s.owner, path, isLeaf, []byte{1}); err != nil {
+		return ""
+	}
+	for k := range dumpDB(scratch) {
+		return k
+	}
+	return ""
 }
 
 func runTrie2(c *TrieCase) (tr trace) {
@@ -215,6 +317,18 @@ func runTrie2(c *TrieCase) (tr trace) {
 				if err := s.tr.Update(&k, &v); err != nil {
 					return err
 				}
+			case "get":
+				k := hexFelt(op.K)
+				v, err := s.tr.Get(&k)
+				if err != nil {
+					return err
+				}
+				tr.Gets = append(tr.Gets, feltHex(&v))
+				if want, ok := written[op.K]; (ok && want != feltHex(&v)) || (!ok && !v.IsZero()) {
+					if tr.Read == "" {
+						tr.Read = fmt.Sprintf("Get(%s) on the writing object = %s, last value written is %q", op.K, feltHex(&v), want)
+					}
+				}
 			case "hash":
 				h, err := s.tr.Hash()
 				if err != nil {
@@ -228,6 +342,7 @@ func runTrie2(c *TrieCase) (tr trace) {
 				}
 				tr.Roots = append(tr.Roots, feltHex(&h))
 				tr.Sets = append(tr.Sets, s.lastSet)
+				tr.Disks = append(tr.Disks, s.lastDisk)
 				if tr.Read == "" {
 					// read back through a SECOND trie object: Get resolves (and re-hangs) every node it
 					// passes, which would hide the write-through-unresolved-node code of the main object
@@ -284,6 +399,17 @@ func runLegacy(c *TrieCase) (tr trace) {
 				written[op.K] = feltHex(&v)
 				if _, err := t.Put(&k, &v); err != nil {
 					return err
+				}
+			case "get":
+				k := hexFelt(op.K)
+				v, err := t.Get(&k)
+				if err != nil {
+					return err
+				}
+				if want, ok := written[op.K]; (ok && want != feltHex(&v)) || (!ok && !v.IsZero()) {
+					if tr.Read == "" {
+						tr.Read = fmt.Sprintf("Get(%s) on the writing object = %s, last value written is %q", op.K, feltHex(&v), want)
+					}
 				}
 			case "hash":
 				h, err := t.Hash()
@@ -356,6 +482,7 @@ func specTraceWith(c *TrieCase, hf crypto.HashFn) (roots []string, final map[str
 			} else {
 				m[op.K] = v
 			}
+		case "get":
 		default:
 			obs()
 		}
@@ -406,7 +533,7 @@ func probeTracer() bool {
 
 // script for the trie2 model with node database / tracer / lazy resolution: commit answers carry
 // the node set
-func lazyModelLines(c *TrieCase, id int) (lines []string, obsIdx []int) {
+func lazyModelLines(c *TrieCase, id int) (lines []string, obsIdx, dumpIdx []int) {
 	fix := 0
 	if tracerLeafAbs {
 		fix = 1
@@ -422,20 +549,25 @@ func lazyModelLines(c *TrieCase, id int) (lines []string, obsIdx []int) {
 		case "commit":
 			obsIdx = append(obsIdx, len(lines))
 			lines = append(lines, fmt.Sprintf("bcommit %d", id))
+			dumpIdx = append(dumpIdx, len(lines))
+			lines = append(lines, fmt.Sprintf("bdump %d", id))
 		}
 	}
 	obsIdx = append(obsIdx, len(lines))
 	lines = append(lines, fmt.Sprintf("bhash %d", id))
-	return lines, obsIdx
+	return lines, obsIdx, dumpIdx
 }
 
 // script for the restart model (ModelLazy.lean): commit = Hash() + reopen
-func restartModelLines(c *TrieCase, id int) (lines []string, obsIdx []int) {
+func restartModelLines(c *TrieCase, id int) (lines []string, obsIdx, getIdx []int) {
 	lines = append(lines, fmt.Sprintf("znew %d %d %s", id, c.Height, c.Hash))
 	for _, op := range c.Ops {
 		switch op.Op {
 		case "put":
 			lines = append(lines, fmt.Sprintf("zput %d %s %s", id, op.K, op.V))
+		case "get":
+			getIdx = append(getIdx, len(lines))
+			lines = append(lines, fmt.Sprintf("zget %d %s", id, op.K))
 		case "hash":
 			obsIdx = append(obsIdx, len(lines))
 			lines = append(lines, fmt.Sprintf("zhash %d", id))
@@ -447,7 +579,7 @@ func restartModelLines(c *TrieCase, id int) (lines []string, obsIdx []int) {
 	}
 	obsIdx = append(obsIdx, len(lines))
 	lines = append(lines, fmt.Sprintf("zhash %d", id))
-	return lines, obsIdx
+	return lines, obsIdx, getIdx
 }
 
 // compareSet checks one model node-set entry against the real one: structure fields literally,
@@ -482,6 +614,7 @@ func modelLines(c *TrieCase, id int) (lines []string, obsIdx []int) {
 		switch op.Op {
 		case "put":
 			lines = append(lines, fmt.Sprintf("put %d %s %s", id, op.K, op.V))
+		case "get":
 		default:
 			obsIdx = append(obsIdx, len(lines))
 			lines = append(lines, fmt.Sprintf("hash %d", id))
